@@ -27,7 +27,8 @@ theorem get_some {st : Store Resp} {k : Bytes} {now : Nat} {v : Resp} (h : st.ge
     · simp at h
   · simp at h
 
-theorem step_sound (m : Mech Req Resp) (rs : List Req) (hs : KeySoundOn m rs) (st : Store Resp) (hi : Inv m rs st)
+theorem step_sound (m : Mech Req Resp) (hl : Lossless m) (rs : List Req) (hs : KeySoundOn m rs) (st : Store Resp)
+    (hi : Inv m rs st)
     (t : Nat) (r : Req) (hr : r ∈ rs) :
     (step m st t r).out = direct m r ∧ Inv m rs (step m st t r).store := by
   unfold step
@@ -42,6 +43,7 @@ theorem step_sound (m : Mech Req Resp) (rs : List Req) (hs : KeySoundOn m rs) (s
     obtain ⟨r₀, hr₀, hkey, hfresh, hacc⟩ := hi _ e hk
     obtain ⟨hf, hp⟩ := hs r hr r₀ hr₀ hkey.symm
     rw [hv] at hfresh hacc
+    simp only [hl v]
     have hd : direct m r = if m.accept r v then .ok v else .rejected := by simp [direct, hf, hfresh]
     by_cases hre : m.recheck = true
     · by_cases ha : m.accept r v = true
@@ -71,14 +73,14 @@ theorem step_sound (m : Mech Req Resp) (rs : List Req) (hs : KeySoundOn m rs) (s
       · simp [ha, direct, hf, hi]
 
 /-- with a sound key every request of every history observes its own uncached decision -/
-theorem run_sound (m : Mech Req Resp) (rs : List Req) (hs : KeySoundOn m rs) :
+theorem run_sound (m : Mech Req Resp) (hl : Lossless m) (rs : List Req) (hs : KeySoundOn m rs) :
     ∀ (h : List (Nat × Req)) (st : Store Resp), Inv m rs st → (∀ tr ∈ h, tr.2 ∈ rs) →
       (run m st h).map (·.out) = h.map fun tr => direct m tr.2
   | [], _, _, _ => rfl
   | (t, r) :: h, st, hi, hm => by
-    obtain ⟨ho, hi'⟩ := step_sound m rs hs st hi t r (hm (t, r) (by simp))
+    obtain ⟨ho, hi'⟩ := step_sound m hl rs hs st hi t r (hm (t, r) (by simp))
     simp only [run, List.map_cons, ho]
-    rw [run_sound m rs hs h _ hi' (fun tr htr => hm tr (by simp [htr]))]
+    rw [run_sound m hl rs hs h _ hi' (fun tr htr => hm tr (by simp [htr]))]
 
 /-! ## a live entry answers every request mapped to its key -/
 
@@ -91,7 +93,7 @@ theorem step_keeps (m : Mech Req Resp) (st : Store Resp) (k : Bytes) (e : Entry 
     · have hg : st.get (m.key r) t = some e.val := by simp [Store.get, hkey, hk, ht]
       unfold step
       simp only [hen, if_true, hg]
-      by_cases hc : (m.recheck && !m.accept r e.val) = true
+      by_cases hc : (m.recheck && !m.accept r (m.recode e.val)) = true
       · simp [hc, hk]
       · simp [hc, hk]
     · unfold step
